@@ -44,6 +44,13 @@ def default_case(**kw):
         "close_at": None,      # audio transport reports is_closing() once this many datagrams were sent
         "stop_after_lap": None,  # stop() is called during this lap (0-based)
         "requests": [],        # [at_read_call or None (= after the stream ended), hex datagram]
+        "prev": [],            # earlier streams on the SAME StreamContext (one RAOP connection): list of overrides
+                               # ({"nframes", "pa", "pb"[, "stop_after_lap", "close_at"]}), each run like the library
+                               # does (new StreamClient + protocol object on the shared context, properties applied,
+                               # send_audio's reset(); afterwards the playback manager's teardown reset())
+        "teardown_reset": True,  # False: the context is NOT reset after this stream (send_audio called again on the
+                               # connection without the playback manager's teardown): the next send_audio's own
+                               # reset() has to do
         "proto": "v1",         # protocol object: "v1" AirPlayV1, "v2" AirPlayV2 without audio cipher, "v2cipher"
                                # AirPlayV2 with _cipher = Chacha20Cipher8byteNonce(key, key) as setup_audio_stream does
         "order": "library",    # "library": StreamClient constructed around a default context, receiver properties
@@ -123,11 +130,13 @@ def open_via_file(case):
         shutil.rmtree(d, ignore_errors=True)
 
 
-async def drive(case, prepared=None):
-    """Run the real sender on one case; returns the raw observation dict."""
+async def drive(case, prepared=None, shared_ctx=None):
+    """Run the real sender on one stream; returns the raw observation dict (with the context under "ctx")."""
     import miniaudio
     from pyatv.protocols.raop import stream_client as sc
     from pyatv.protocols.raop.audio_source import AudioSource, FileSource
+    from pyatv.protocols.raop import protocols as rp
+    from pyatv.protocols.raop import timing as rtiming
     from pyatv.protocols.raop.protocols import StreamContext
     from pyatv.protocols.raop.protocols.airplayv1 import AirPlayV1
     from pyatv.protocols.raop.protocols.airplayv2 import AirPlayV2
@@ -171,31 +180,41 @@ async def drive(case, prepared=None):
 
     rtsp = FakeRtsp(case["ssrc"])
     props = {"sr": str(case["sample_rate"]), "ch": str(ch), "ss": str(8 * ss)}
-    if case.get("order", "library") == "library":
-        # The library's own order (RaopPlaybackManager.setup, RaopStream.stream_file, StreamClient.send_audio):
-        # a FRESH StreamContext with the default format, the protocol object and the StreamClient are constructed
-        # around it, only then are the receiver's properties applied through the real code path
-        # (initialize() -> _update_output_properties), and send_audio() resets the context before streaming.
-        ctx = StreamContext()
-        proto = make_proto(ctx, rtsp)
-        client = sc.StreamClient(rtsp, ctx, proto, None)
-        client._update_output_properties(props)
-        ctx.reset()
-    else:
-        # second variant: format already on the context when the client is constructed
-        ctx = StreamContext()
-        ctx.sample_rate = case["sample_rate"]
-        ctx.channels = ch
-        ctx.bytes_per_channel = ss
-        proto = make_proto(ctx, rtsp)
-        client = sc.StreamClient(rtsp, ctx, proto, None)
-    assert (ctx.sample_rate, ctx.channels, ctx.bytes_per_channel) == (case["sample_rate"], ch, ss)
-    # what reset() draws from randrange()/the wall clock, and the latency under test
-    ctx.latency = case["latency"]
-    ctx.rtpseq = case["seq0"]
-    ctx.start_ts = case["start_ts"]
-    ctx.head_ts = case["start_ts"]
-    ctx.padding_sent = 0
+    # reset() draws the start sequence number from randrange() and the start timestamp from the wall clock: both
+    # sources are substituted (the values come from the case), everything reset() does with them is the real code
+    sr = case["sample_rate"]
+    saved_rand = (rp.randrange, rtiming.ntp_now)
+    rp.randrange = lambda n: case["seq0"] % n
+    rtiming.ntp_now = lambda: (((case["start_ts"] << 16) // sr) + 1) << 16
+    try:
+        ctx = shared_ctx if shared_ctx is not None else StreamContext()
+        before = [ctx.rtpseq, ctx.head_ts, ctx.padding_sent]
+        if case.get("order", "library") == "library":
+            # The library's own order (RaopPlaybackManager.setup, RaopStream.stream_file, StreamClient.send_audio):
+            # the protocol object and a new StreamClient are constructed around the connection's StreamContext (fresh
+            # with the default format for the first stream, re-used for later ones), only then are the receiver's
+            # properties applied through the real code path (initialize() -> _update_output_properties), and
+            # send_audio() resets the context before streaming.
+            proto = make_proto(ctx, rtsp)
+            client = sc.StreamClient(rtsp, ctx, proto, None)
+            client._update_output_properties(props)
+        else:
+            # second variant: format already on the context when the client is constructed
+            ctx.sample_rate = sr
+            ctx.channels = ch
+            ctx.bytes_per_channel = ss
+            proto = make_proto(ctx, rtsp)
+            client = sc.StreamClient(rtsp, ctx, proto, None)
+        ctx.reset()                                   # StreamClient.send_audio
+    finally:
+        rp.randrange, rtiming.ntp_now = saved_rand
+    assert (ctx.sample_rate, ctx.channels, ctx.bytes_per_channel) == (sr, ch, ss)
+    # the latency is 22050 + sample rate; shorter ones are test parameters that keep the cases small.  Nothing else
+    # of the context is touched: sequence number, timestamps and padding_sent are what reset() left.
+    if case["latency"] != 22050 + sr:
+        ctx.latency = case["latency"]
+    at_start = {"seq0": ctx.rtpseq, "start_ts": ctx.start_ts, "latency": ctx.latency,
+                "head0": ctx.head_ts, "pad0": ctx.padding_sent, "before": before}
     audio = AudioTransport(case["close_at"])
     control_t = ControlTransport()
     control = sc.ControlClient(ctx, client._packet_backlog)
@@ -266,7 +285,7 @@ async def drive(case, prepared=None):
     do_requests(None)
     bl = client._packet_backlog
     keys = list(bl)
-    return {
+    ob = {
         "outcome": outcome,
         "sent": audio.sent,
         "behind": behind,
@@ -278,13 +297,42 @@ async def drive(case, prepared=None):
         "fs": fs,
         "limit": sc.PACKET_BACKLOG_SIZE,
         "calls": cipher_calls,
+        "ctx": ctx,
     }
+    ob.update(at_start)
+    # end of the stream as the library does it: send_audio clears the backlog, RaopPlaybackManager.teardown()
+    # resets the connection's context
+    bl.clear()
+    if case.get("teardown_reset", True):
+        rp.randrange, rtiming.ntp_now = (lambda n: 0), (lambda: 1 << 40)
+        try:
+            ctx.reset()
+        finally:
+            rp.randrange, rtiming.ntp_now = saved_rand
+    return ob
+
+
+def streams_of(case):
+    """The streams of a history, oldest first, as single-stream cases (the last one is the case itself)."""
+    subs = []
+    for p in case.get("prev", []):
+        sub = dict(case, prev=[], requests=[], delays={}, close_at=None, stop_after_lap=None, via_file=False)
+        sub.update(p)
+        subs.append(sub)
+    subs.append(dict(case, prev=[]))
+    return subs
 
 
 def run_case(case):
-    if case.get("via_file"):
-        return vloop.run(drive, case, open_via_file(case))
-    return vloop.run(drive, case)
+    """Run all streams of the case on one StreamContext; returns [(single-stream case, observation)]."""
+    out = []
+    shared = None
+    for sub in streams_of(case):
+        prepared = open_via_file(sub) if sub.get("via_file") else None
+        ob = vloop.run(drive, sub, prepared, shared)
+        shared = ob.pop("ctx")
+        out.append((sub, ob))
+    return out
 
 
 # --------------------------------------------------------------------------- oracle
@@ -339,9 +387,9 @@ def oracle(case, ob):
         b0, b1, seq, ts, ssrc = struct.unpack(">BBHII", d[:12])
         if b0 != 0x80 or ssrc != case["ssrc"]:
             errs.append(("C16:packet:header", "datagram %d: first byte %#x ssrc %#x" % (i, b0, ssrc)))
-        if seq != (case["seq0"] + i) % SEQMOD:
+        if seq != (ob["seq0"] + i) % SEQMOD:
             errs.append(("C16:seq:not-consecutive", "datagram %d carries sequence %d, expected %d" % (
-                i, seq, (case["seq0"] + i) % SEQMOD)))
+                i, seq, (ob["seq0"] + i) % SEQMOD)))
         want = 0xE0 if i == 0 else 0x60
         if b1 != want:
             errs.append(("C16:marker:first-only", "datagram %d has type byte %#x, expected %#x" % (i, b1, want)))
@@ -379,11 +427,11 @@ def oracle(case, ob):
         fseq, fhead, fpad, _ = ob["final"]
         n = len(sent)
         npad = -(-case["latency"] // FPP)
-        if fseq != (case["seq0"] + n) % SEQMOD or fhead != case["start_ts"] + FPP * n or fpad != FPP * npad:
+        if fseq != (ob["seq0"] + n) % SEQMOD or fhead != ob["start_ts"] + FPP * n or fpad != FPP * npad:
             errs.append(("C16:context:bookkeeping",
                          "after %d datagrams (%d of silence) the context holds rtpseq=%d head_ts-start=%d padding_sent=%d, "
-                         "expected %d, %d, %d" % (n, npad, fseq, fhead - case["start_ts"], fpad,
-                                                  (case["seq0"] + n) % SEQMOD, FPP * n, FPP * npad)))
+                         "expected %d, %d, %d" % (n, npad, fseq, fhead - ob["start_ts"], fpad,
+                                                  (ob["seq0"] + n) % SEQMOD, FPP * n, FPP * npad)))
     # retransmission
     for r in ob["reqs"]:
         data = bytes.fromhex(r["data"])
@@ -522,12 +570,13 @@ def describe(case, ob):
     laps = ["{| l_stop := %s; l_behind := %s |}" % (common.cbool(s), common.cZ(b)) for s, b in lap_terms(case, ob)]
     f = ob["final"]
     term = ("{| k_proto := %s; k_fs := %s; k_latency := %s; k_start := %s; k_ssrc := %s; k_lim := %s; k_close := %s;\n"
-            "   k_seq0 := %s; k_srclen := %s; k_pa := %s; k_pb := %s;\n   k_sched := %s;\n   k_outcome := %s;\n"
+            "   k_prev := (%s, %s, %s); k_seq0 := %s; k_srclen := %s; k_pa := %s; k_pb := %s;\n   k_sched := %s;\n   k_outcome := %s;\n"
             "   k_dgrams := %s;\n   k_final := (%s, %s, %s, %s); k_keys := %s; k_blfrom := %s;\n   k_reqs := %s |}" % (
                 {"v1": "V1", "v2": "V2plain", "v2cipher": "V2cipher"}[case.get("proto", "v1")],
-                common.cN(fs), common.cN(case["latency"]), common.cN(case["start_ts"]), common.cN(case["ssrc"]),
+                common.cN(fs), common.cN(ob["latency"]), common.cN(ob["start_ts"]), common.cN(case["ssrc"]),
                 common.cN(ob["limit"]), common.copt(case["close_at"], common.cN),
-                common.cN(case["seq0"]), common.cN(len(src)), common.cN(case["pa"]), common.cN(case["pb"]),
+                common.cN(ob["before"][0]), common.cN(ob["before"][1]), common.cN(ob["before"][2]),
+                common.cN(ob["seq0"]), common.cN(len(src)), common.cN(case["pa"]), common.cN(case["pb"]),
                 common.clist(laps), oc, common.clist(dg),
                 common.cN(f[0]), common.cN(f[1]), common.cN(f[2]), common.cN(f[3]),
                 common.clist(ob["keys"], common.cN), common.cN(blfrom), common.clist(reqs)))
@@ -659,6 +708,44 @@ def gen_cases(ctx):
     for k in (1, 2):
         cases.append(("ts-limit", default_case(latency=(1 << 32) - FPP * k - 10, nframes=1500, boundary=True,
                                                seq0=rng.randrange(SEQMOD))))
+    # J. several streams on ONE StreamContext (stream_file called repeatedly on one connection): every (len1, len2) in
+    #    the size classes, protocols and formats rotating; the per-stream oracle applies to every stream
+    sizes = [0, 2, 352, 354, 880, 1058]
+    k = rng.randrange(6)
+    for n1 in sizes:
+        for n2 in sizes:
+            k += 1
+            ch, ss = FORMATS[k % 6]
+            proto = ("v1", "v2", "v2cipher")[(k // 2) % 3]
+            kw = dict(channels=ch, ssize=ss, nframes=n2, proto=proto, seq0=rnd_seq0(), start_ts=rng.randrange(1 << 33),
+                      latency=rng.choice(lat_small), pa=rng.randrange(1, 250), pb=rng.randrange(251),
+                      prev=[{"nframes": n1, "pa": rng.randrange(1, 250), "pb": rng.randrange(251),
+                             "seq0": rnd_seq0(), "start_ts": rng.randrange(1 << 33),
+                             "teardown_reset": k % 2 == 0}])
+            if k % 5 == 0:
+                n = -(-n2 // FPP) + -(-kw["latency"] // FPP)
+                kw["requests"] = window_requests(kw["seq0"], min(n, 4))
+            if k % 7 == 0:
+                kw["delays"] = {str(rng.randrange(0, 3)): rng.choice([0.02, 0.1])}
+            cases.append(("two-streams", default_case(**kw)))
+    nJ = 12 if not ctx.thorough else 120
+    for i in range(nJ):
+        ch, ss = rng.choice([(1, 2), (2, 2), (2, 4), (2, 1)])
+        prev = []
+        for _ in range(rng.randrange(1, 4)):
+            p = {"nframes": rng.randrange(0, 4 * FPP), "pa": rng.randrange(1, 250), "pb": rng.randrange(251),
+                 "seq0": rnd_seq0(), "start_ts": rng.randrange(1 << 33), "teardown_reset": rng.random() < 0.5}
+            r = rng.random()
+            if r < 0.3:
+                p["stop_after_lap"] = rng.randrange(0, 6)       # the earlier stream was stopped by the user
+            elif r < 0.5:
+                p["close_at"] = rng.randrange(0, 6)             # ... or its transport went away
+            prev.append(p)
+        sr = rng.choice([8000, 44100])
+        cases.append(("more-streams", default_case(
+            channels=ch, ssize=ss, nframes=rng.randrange(0, 4 * FPP), proto=rng.choice(["v1", "v2", "v2cipher"]),
+            seq0=rnd_seq0(), start_ts=rng.randrange(1 << 33), sample_rate=sr,
+            latency=rng.choice(lat_small + [22050 + sr]), pa=rng.randrange(1, 250), pb=rng.randrange(251), prev=prev)))
     # G. more than 1000 packets: the backlog evicts, requests for evicted and retained packets
     for extra in ([7] if not ctx.thorough else [0, 1, 7, 300, 1500]):
         nfr = (1000 + extra) * FPP - 5
@@ -745,7 +832,7 @@ def run(ctx):
                 "modulo the packet size (0..351 frames), boundary lengths x (channels,sample size) in {1,2}x{1,2,4}, "
                 "start sequence numbers around the 2^16 wrap, late-source schedules (compensation packets), closing "
                 "transport / stop(), every (first,count) retransmit window over small backlogs (end and mid-stream), "
-                "real latency, >1000 packets (backlog eviction); non-trivial = at least one datagram sent; distinct by "
+                "real latency, >1000 packets (backlog eviction), two and more consecutive streams on one StreamContext (every (len1,len2) in the size classes, earlier streams also stopped/closed early); non-trivial = at least one datagram sent; distinct by "
                 "full case description")
     facts = domain_facts(ctx)
     ctx.extra["domain_facts"] = facts
@@ -762,30 +849,36 @@ def run(ctx):
     weights = []
     meta = []
     for kind, case in cases:
-        ob = run_case(case)
+        history = run_case(case)
         ctx.traces += 1
         ctx.count(kind.split(":")[0])
         ctx.count("fmt:%dx%d" % (case["channels"], case["ssize"]))
         ctx.count("proto:" + case.get("proto", "v1"))
-        ctx.count("outcome:" + ob["outcome"])
-        ctx.count("compensated" if any(b >= FPP for b in ob["behind"]) else "on-time")
-        errs = oracle(case, ob)
-        for key, text in errs:
-            ctx.violation(key, text, {"case": case})
-        if not case.get("via_file"):
-            term, ok = describe(case, ob)
-            if not ok and not errs:
-                ctx.tie_broken("correspondence:canonical-form", json.dumps({"case": case}))
-            terms.append(term)
-            weights.append(len(ob["src"]) + sum(len(d) for d in ob["sent"])
-                           + sum(len(x) for r in ob["reqs"] for x in r["replies"]))
-            meta.append(case)
-        ctx.case(case_key(case), nontrivial=len(ob["sent"]) > 0,
-                 sample={"case": {k: v for k, v in case.items() if k != "requests"},
-                         "requests": len(case["requests"]), "outcome": ob["outcome"], "datagrams": len(ob["sent"]),
-                         "frames_behind": ob["behind"][:8], "final": ob["final"],
-                         "replies": sum(len(r["replies"]) for r in ob["reqs"])})
-        ctx.count("requests", len(ob["reqs"]))
+        ctx.count("streams-on-context:%d" % len(history))
+        for idx, (sub, ob) in enumerate(history):
+            ctx.count("outcome:" + ob["outcome"])
+            ctx.count("compensated" if any(b >= FPP for b in ob["behind"]) else "on-time")
+            errs = oracle(sub, ob)
+            for key, text in errs:
+                if len(history) > 1:
+                    text = "stream %d of %d on one StreamContext (%s frames): %s" % (
+                        idx + 1, len(history), "+".join(str(x["nframes"]) for x, _ in history), text)
+                ctx.violation(key, text, {"case": case, "stream": idx})
+            if not sub.get("via_file"):
+                term, ok = describe(sub, ob)
+                if not ok and not errs:
+                    ctx.tie_broken("correspondence:canonical-form", json.dumps({"case": case, "stream": idx}))
+                terms.append(term)
+                weights.append(len(ob["src"]) + sum(len(d) for d in ob["sent"])
+                               + sum(len(x) for r in ob["reqs"] for x in r["replies"]))
+                meta.append({"case": case, "stream": idx})
+            ctx.case((case_key(case), idx), nontrivial=len(ob["sent"]) > 0,
+                     sample={"case": {k: v for k, v in case.items() if k != "requests"}, "stream": idx,
+                             "requests": len(sub["requests"]), "outcome": ob["outcome"], "datagrams": len(ob["sent"]),
+                             "frames_behind": ob["behind"][:8], "final": ob["final"],
+                             "context_at_start": [ob["seq0"], ob["start_ts"], ob["head0"], ob["pad0"], ob["latency"]],
+                             "replies": sum(len(r["replies"]) for r in ob["reqs"])})
+            ctx.count("requests", len(ob["reqs"]))
     # model vs implementation inside Coq; shard by weight
     items = []
     shard, w, first = [], 0, 0
@@ -824,7 +917,7 @@ def run(ctx):
                 ctx.tie_broken("correspondence:small", sm[b])
         elif bad:
             for b in bad[:5]:
-                ctx.tie_broken("correspondence:stream", json.dumps({"case": meta[index[name] + b]}))
+                ctx.tie_broken("correspondence:stream", json.dumps(meta[index[name] + b]))
     ctx.trusted += [
         "hand-written model coq/C16/Model.v of stream_client.py (_stream_data, _send_packet, _send_number_of_packets, "
         "ControlClient.datagram_received/_retransmit_lost_packets), fifo.py, AudioPacketHeader/RetransmitReqeust layouts, "
@@ -850,11 +943,16 @@ def run(ctx):
 def replay(ctx, path):
     d = json.load(open(path))
     case = default_case(**(d["replay"]["case"] if "replay" in d else d["case"]))
-    ob = run_case(case)
-    errs = oracle(case, ob)
+    history = run_case(case)
     print("case=%s" % json.dumps({k: v for k, v in case.items() if k != "requests"}, sort_keys=True))
-    print("outcome=%s datagrams=%d final=%s requests=%d" % (ob["outcome"], len(ob["sent"]), ob["final"],
-                                                           len(ob["reqs"])))
-    for k, t in errs:
-        print("property-error %s: %s" % (k, t))
-    return 1 if errs else 0
+    bad = 0
+    for idx, (sub, ob) in enumerate(history):
+        errs = oracle(sub, ob)
+        print("stream %d/%d frames=%d context-at-start(rtpseq=%d start_ts=%d head_ts=%d padding_sent=%d latency=%d) "
+              "outcome=%s datagrams=%d final=%s requests=%d" % (
+                  idx + 1, len(history), sub["nframes"], ob["seq0"], ob["start_ts"], ob["head0"], ob["pad0"],
+                  ob["latency"], ob["outcome"], len(ob["sent"]), ob["final"], len(ob["reqs"])))
+        for k, t in errs:
+            print("property-error %s: %s" % (k, t))
+        bad += len(errs)
+    return 1 if bad else 0
